@@ -334,6 +334,95 @@ fn item_vector_contract() {
     kani::cover!(!present);
 }
 
+/// No item key of `index` among the symbolic neighbours (so that the slot set next is the only one).
+fn assume_no_item_of(store: &Store, index: u16) {
+    let mut i = 0;
+    while i < CAP {
+        kani::assume(!(store.used[i] && key_index(store.keys[i]) == index && key_kind(store.keys[i]) == K_ITEM));
+        i += 1;
+    }
+}
+
+/// Writer::iter yields the stored item once, with the stored vector bit-for-bit at the declared
+/// dimension, and nothing of the neighbouring indexes (C05, C07).
+#[kani::proof]
+#[kani::unwind(20)]
+#[kani::stub(alloc::fmt::format, stub_format)]
+fn iter_yields_stored_vector_euclidean() {
+    let mut store = Store::new();
+    sym_store(&mut store, 2, 16);
+    let index: u16 = kani::any();
+    let item: u32 = kani::any();
+    assume_no_item_of(&store, index);
+    let present: bool = kani::any();
+    let mut val: [u8; 13] = kani::any();
+    val[0] = 0;
+    if present {
+        store.set_slot(2, ref_key(index, K_ITEM, item), &val);
+    }
+    let w = writer::<Euclidean>(index, 2);
+    let rtxn = RoTxn::on(&store);
+    let mut it = ok(w.iter(&rtxn));
+    match it.next() {
+        Some(r) => {
+            let (id, got) = ok(r);
+            assert!(present && id == item);
+            assert!(got.len() == 2);
+            assert!(got[0].to_bits() == u32::from_ne_bytes([val[5], val[6], val[7], val[8]]));
+            assert!(got[1].to_bits() == u32::from_ne_bytes([val[9], val[10], val[11], val[12]]));
+            core::mem::forget(got);
+        }
+        None => assert!(!present),
+    }
+    core::mem::forget(it);
+    kani::cover!(present);
+    kani::cover!(!present);
+}
+
+/// Same for a quantised metric: the sign pattern at the declared dimension (3), not at the
+/// padded width (C05, C12).  PARKED (not registered): no CBMC verdict in 900 s even over a concrete
+/// store (decode + 64-lane `to_vec` + Vec growth); the clause is decided by the mirsym obligation
+/// `item_iteration` instead.
+#[kani::proof]
+#[kani::unwind(70)]
+#[kani::stub(alloc::fmt::format, stub_format)]
+#[kani::stub(core::core_arch::x86::sse41::_mm_blendv_ps, stub_blendv_ps)]
+fn iter_yields_stored_vector_bq() {
+    // concrete store around the leaf: the neighbour/frame part is iter_yields_stored_vector_euclidean's
+    let mut store = Store::new();
+    let index: u16 = 7;
+    let item: u32 = kani::any();
+    let word: u64 = kani::any();
+    kani::assume(word >> 3 == 0);
+    let mut val = [0u8; 13];
+    let wb = word.to_ne_bytes();
+    let mut i = 0;
+    while i < 8 {
+        val[5 + i] = wb[i];
+        i += 1;
+    }
+    store.set_slot(2, ref_key(index, K_ITEM, item), &val);
+    let w = writer::<BinaryQuantizedEuclidean>(index, 3);
+    let rtxn = RoTxn::on(&store);
+    let mut it = ok(w.iter(&rtxn));
+    match it.next() {
+        Some(r) => {
+            let (id, got) = ok(r);
+            assert!(id == item);
+            assert!(got.len() == 3);
+            let mut i = 0;
+            while i < 3 {
+                assert!(got[i] == if (word >> i) & 1 == 1 { 1.0 } else { -1.0 });
+                i += 1;
+            }
+            core::mem::forget(got);
+        }
+        None => assert!(false),
+    }
+    core::mem::forget(it);
+    kani::cover!(word == 0b101);
+}
+
 /// reset_and_retrieve_updated_items removes exactly this index's updated marks, returns their
 /// ids, and leaves everything else byte-identical (C06, C07).
 #[kani::proof]
